@@ -353,7 +353,7 @@ package vegeta
 
 //@ func (*Attacker).Attack$1
 //@   property C02 C03 C04
-//@   requires [captured-non-nil] a != nil && atk != nil && p != nil
+//@   requires [captured-non-nil] a != nil && atk != nil && p != nil && tr != nil
 //@   requires [started-in-the-past] atk.began <= clock(0)
 //@   requires [initial-workers-clamped] workers <= a.maxWorkers
 //@   requires [channels-open] ticks != nil && results != nil && !closed(ticks) && !closed(results) && ref(ticks) != ref(results)
@@ -398,7 +398,7 @@ package vegeta
 //@     invariant workers <= a.maxWorkers && workers == old(workers) + spawned
 //@     invariant lastElapsed <= clock(0) - atk.began && atk.began <= clock(0) && clock(0) >= old(clock(0))
 //@     invariant a == old(a) && atk == old(atk) && p == old(p) && du == old(du) && atk.began == old(atk.began)
-//@     invariant a.stopch == old(a.stopch) && ticks == old(ticks) && results == old(results)
+//@     invariant a.stopch == old(a.stopch) && ticks == old(ticks) && results == old(results) && tr == old(tr)
 
 // ---------------------------------------------------------------------------------- C05 C06 (and C02)
 // hit: one request/response exchange. Monitor on atk.seqmu: (seq, timestamp) are issued in ONE critical
@@ -465,11 +465,14 @@ package vegeta
 //@   ensures [C06-body-closed-and-drained] didDo && doOK ==> bclosed(body) && (remaining(body) == 0 || rfault(body))
 //@   ensures [C06-capture-limit] didDo && doOK && a.maxBody >= 0 ==> len(result.Body) <= a.maxBody
 //@   ensures [lock-released] !held(&atk.seqmu)
+//@   ensures [clock-monotone] clock(0) >= old(clock(0))
+//@   ensures [stop-flags-consistent] closed(a.stopch) <==> done(&a.stopOnce)
 
 // The worker: one result per tick, Done exactly once.
 //@ func (*Attacker).attack
 //@   property C02 C03
-//@   requires [non-nil] a != nil && atk != nil && workers != nil && ticks != nil && results != nil
+//@   requires [non-nil] a != nil && atk != nil && workers != nil && ticks != nil && results != nil && tr != nil
+//@   requires [hit-preconditions] atk.began <= clock(0) && atk.began >= 0 && !held(&atk.seqmu) && a.stopch != nil && (closed(a.stopch) <==> done(&a.stopOnce))
 //@   ghost taken int
 //@   ghost sent int
 //@   ghost hits int
@@ -483,11 +486,12 @@ package vegeta
 //@   ensures [C02-one-result-per-tick] taken == sent && hits == sent && dones == 1
 //@   loop 1
 //@     invariant taken == sent && hits == sent && dones == 0
-//@     invariant a == old(a) && atk == old(atk) && workers == old(workers) && results == old(results) && ticks == old(ticks)
+//@     invariant a == old(a) && atk == old(atk) && workers == old(workers) && results == old(results) && ticks == old(ticks) && tr == old(tr)
+//@     invariant atk.began == old(atk.began) && atk.began <= clock(0) && !held(&atk.seqmu) && a.stopch == old(a.stopch) && (closed(a.stopch) <==> done(&a.stopOnce))
 
 //@ func (*Attacker).Attack
 //@   property C02 C03
-//@   requires [non-nil] a != nil && a.stopch != nil && p != nil
+//@   requires [non-nil] a != nil && a.stopch != nil && p != nil && tr != nil
 //@   requires [stop-flags-consistent] closed(a.stopch) <==> done(&a.stopOnce)
 //@   assume   [clock-range] clock(0) >= 0
 //@   ghost spawned int
